@@ -9,6 +9,7 @@ from . import c01
 import propka.run
 
 ID = 'C12'
+HORIZON_S = 1800   # one case = one input under all its transformations
 LEVEL = 'exploration'
 LEVEL_TEXT = ('Truncations are enumerated exhaustively within a deviation bound (= number of deleted atoms): every subset of the atoms of '
               'the middle residue of a tripeptide for all 20 residue types (all 2^n subsets for residues of <= 9 atoms in the quick '
